@@ -1,0 +1,18 @@
+// Copyright 2026 The Go Authors. All rights reserved.
+// Use of this source code is governed by a BSD-style
+// license that can be found in the LICENSE file.
+
+//go:build verif
+
+package ssh
+
+import "golang.org/x/crypto/ssh/internal/bcrypt_pbkdf"
+
+// Verification hooks (build tag "verif" only) for the key file checks.
+
+// VerifKeysBcryptPBKDF exposes the internal bcrypt_pbkdf key derivation used
+// for passphrase protected OpenSSH private keys, so that a conformance harness
+// can decrypt, alter and re-encrypt the private section of a key file.
+func VerifKeysBcryptPBKDF(password, salt []byte, rounds, keyLen int) ([]byte, error) {
+	return bcrypt_pbkdf.Key(password, salt, rounds, keyLen)
+}
